@@ -21,7 +21,27 @@ SA_THOROUGH = SA_QUICK + ["SA_bls_q7.cfg", "SA_schnorr_q7.cfg", "SA_l17_q5.cfg",
 
 
 def key_of(row):
-    return row.get("k") or row.get("a", "?")
+    """Key of a rejected line (one report and one known_findings entry per key). Signing lines are keyed by protocol, variant,
+    group and the stage at which the run departs from an accepted one - not by quorum / policy / message, which vary with the seed."""
+    r = row
+    if r.get("a") != "sign":
+        return r.get("k") or r.get("a", "?")
+    if "keyErr" in r:
+        why = "keyErr"
+    elif not r["started"]:
+        oks = [c["ok"] for c in r["ctor"]]
+        why = "ctor-refused" if not any(oks) else ("ctor-accepted" if all(oks) else "ctor-mixed")
+    elif r["rejects"]:
+        why = "reject-r%s" % min(x["round"] for x in r["rejects"])
+    elif r["outErrs"]:
+        why = "outErr-" + "+".join(sorted(set("plain" if o["who"] == "agg:plain" else "cosigning" for o in r["outErrs"])))
+    elif len(set(o["tok"] for o in r["outs"])) > 1:
+        why = "outputs-differ"
+    elif not r["signed"]:
+        why = "no-signature"
+    else:
+        why = "relations"
+    return "sign:%s:%s:%s:%s" % (r["proto"], r["variant"], r["group"], why)
 
 
 def _build(need_plain=True, need_test=False):
